@@ -429,10 +429,12 @@ def switch_forward(ck, thorough):
     skip = os.environ.get("C07_DEV_SKIP", "").split(",")
     # ---- (f) model checking + witnesses
     if "mc" not in skip:
-        mcs = [("3 adds, 2 outgoing links, 3 link instances", dict(swf_consts(3, 2), MaxLinks=3, MaxOutRestarts=1))]
+        # measured: 39 840 / 201 360 / 774 564 / 475 638 distinct states, 3 / 8 / 32 / 18 s on 4 workers
+        mcs = [("3 adds, 2 outgoing links, 3 link instances", dict(swf_consts(3, 2), MaxLinks=3, MaxOutRestarts=1)),
+               ("4 adds, 2 outgoing links, 3 link instances", dict(swf_consts(4, 2), MaxLinks=3, MaxOutRestarts=1))]
         if thorough:
-            mcs += [("4 adds, 2 outgoing links, 3 link instances", dict(swf_consts(4, 2), MaxLinks=3, MaxOutRestarts=1)),
-                    ("3 adds, 3 outgoing links, 4 link instances", dict(swf_consts(3, 3), MaxLinks=4, MaxOutRestarts=2))]
+            mcs += [("3 adds, 3 outgoing links, 4 link instances", dict(swf_consts(3, 3), MaxLinks=4, MaxOutRestarts=2)),
+                    ("4 adds, 2 outgoing links, 4 link instances", dict(swf_consts(4, 2), MaxLinks=4, MaxOutRestarts=2))]
         for i, (what, c) in enumerate(mcs):
             ck.model_check(SPEC, "SwitchForwardMC", "SwitchForwardMC.cfg", "SwitchForward " + what, constants=c,
                            name="mc_swfwd_%d" % (i + 1), timeout=1500, workers=4)
@@ -445,42 +447,54 @@ def switch_forward(ck, thorough):
                 raise Inconclusive("%s: expected a violation of %s, got %s" % (what, want, r.violation))
         ck.cov["invariants"] = ck.cov.get("invariants", []) + SWF_INVS.split()
     # ---- (g) schedules: generated + the directed one (stop after the first packet, replay to the other link)
-    n, nout = 3, 2
-    consts = swf_consts(n, nout)
-    num = 600 if thorough else 150
-    files = ck.generate(SPEC, "SwitchForwardGen", "SwitchForwardGen.cfg", num, 45,
-                        constants=dict(consts, MaxLen=40), name="gen_swfwd", timeout=600)
-    sched = os.path.dirname(files[0])
-    shutil.copy(os.path.join(SPEC, "repro", "swfwd_stop_mid_batch_replay.ndjson"), os.path.join(sched, "b_0.ndjson"))
-    res, recs = swf_execute(ck, sched, n, nout, "exec_swfwd")
-    # ---- (h) validation
-    v = swf_validate(ck, recs, consts, "val_swfwd", sched_dir=sched)
-    ntr = sum(1 for r in recs if is_reset(r))
-    hist = histogram(recs)
-    ck.cov["evaluations"] += len(recs) - ntr
-    seqs, mid = set(), 0
-    a = 0
-    for b in [i for i, r in enumerate(recs) if is_reset(r)][1:] + [len(recs)]:
-        t = recs[a:b]
-        a = b
-        h = core.sha(str([(r["a"], r["c"]) for r in t]))
-        if h not in seqs and any(r["a"] == "Abort" for r in t):
-            mid += 1
-        seqs.add(h)
-    ck.cov["distinct_nontrivial"] += mid
-    ck.cov["switch_forward"] = dict(traces=ntr, steps=len(recs) - ntr, distinct_schedules=len(seqs),
-                                    distinct_with_link_stopped_mid_batch=mid, step_histogram=hist,
-                                    replays_after_abort=sum(1 for i, r in enumerate(recs) if r["a"] == "Begin" and r["ret"] == "err"))
-    if v["ok"]:
-        if res["rc"] != 0:
-            raise Inconclusive("switch-level executor failed although everything it recorded conforms:\n" + res["out"][-3000:])
-        ck.cov["traces_validated_against_impl"] += ntr
-        swf_controls(ck, recs, consts)
-        i = next((k for k, r in enumerate(recs) if r["a"] == "Abort"), None)
-        if i is not None:
-            keep = ("a", "c", "circ", "mb", "fk", "fd", "ret", "infl", "ack")
-            ck.cov["samples"].append({"switch level, a link stopped in the middle of a batch": [
-                {k: r[k] for k in keep} for r in recs[max(0, i - 3):i + 1]]})
+    unis = [(3, 2, 1500, "a"), (4, 3, 700, "b")] if thorough else [(3, 2, 400, "a")]
+    agg = dict(traces=0, steps=0, distinct_schedules=0, distinct_with_link_stopped_mid_batch=0, step_histogram={},
+               replays_after_abort=0, universes=[])
+    for n, nout, num, tag in unis:
+        consts = swf_consts(n, nout)
+        files = ck.generate(SPEC, "SwitchForwardGen", "SwitchForwardGen.cfg", num, 45,
+                            constants=dict(consts, MaxLen=40), name="gen_swfwd_" + tag, timeout=600)
+        sched = os.path.dirname(files[0])
+        if n == 3:
+            shutil.copy(os.path.join(SPEC, "repro", "swfwd_stop_mid_batch_replay.ndjson"), os.path.join(sched, "b_0.ndjson"))
+        res, recs = swf_execute(ck, sched, n, nout, "exec_swfwd_" + tag)
+        # ---- (h) validation
+        ok = True
+        for bi, batch in enumerate(core.split_batches(recs, is_reset, 6_000_000)):
+            v = swf_validate(ck, batch, consts, "val_swfwd_%s%d" % (tag, bi), sched_dir=sched)
+            ok = ok and v["ok"]
+        ntr = sum(1 for r in recs if is_reset(r))
+        ck.cov["evaluations"] += len(recs) - ntr
+        seqs, mid = set(), 0
+        a = 0
+        for b in [i for i, r in enumerate(recs) if is_reset(r)][1:] + [len(recs)]:
+            t = recs[a:b]
+            a = b
+            h = core.sha(str([(r["a"], r["c"]) for r in t]))
+            if h not in seqs and any(r["a"] == "Abort" for r in t):
+                mid += 1
+            seqs.add(h)
+        ck.cov["distinct_nontrivial"] += mid
+        agg["traces"] += ntr
+        agg["steps"] += len(recs) - ntr
+        agg["distinct_schedules"] += len(seqs)
+        agg["distinct_with_link_stopped_mid_batch"] += mid
+        agg["replays_after_abort"] += sum(1 for r in recs if r["a"] == "Begin" and r["ret"] == "err")
+        agg["universes"].append("%d adds, %d outgoing links: %d schedules" % (n, nout, ntr))
+        for k, c in histogram(recs).items():
+            agg["step_histogram"][k] = agg["step_histogram"].get(k, 0) + c
+        ck.cov["switch_forward"] = agg
+        if ok:
+            if res["rc"] != 0:
+                raise Inconclusive("switch-level executor failed although everything it recorded conforms:\n" + res["out"][-3000:])
+            ck.cov["traces_validated_against_impl"] += ntr
+            if tag == "a":
+                swf_controls(ck, recs[:4000], consts)
+                i = next((k for k, r in enumerate(recs) if r["a"] == "Abort"), None)
+                if i is not None:
+                    keep = ("a", "c", "circ", "mb", "fk", "fd", "ret", "infl", "ack")
+                    ck.cov["samples"].append({"switch level, a link stopped in the middle of a batch": [
+                        {k: r[k] for k in keep} for r in recs[max(0, i - 3):i + 1]]})
 
 
 def swf_replay(ck, d, meta):
